@@ -83,28 +83,34 @@ type lsState struct {
 	cend     lsPos
 	atEnd    int
 	unkStart int
-	alias    map[types.Object]bool // local slices that alias the line table
-	nextEp   int
-	bools    map[types.Object]bool
-	ints     map[types.Object]int64
-	breaks   int
-	sinks    []string
-	advs     int  // cursor advanced by the length of the decoration
-	inner    int  // loops over the decoration text that record line starts inside it
-	done     bool // returned
-	cont     bool // continue in the decoration loop
-	ret      *int64
+	// filled: local slices (collections of comments that are handed on later) known to hold
+	// something (true) or nothing (false)
+	filled map[types.Object]bool
+	alias  map[types.Object]bool // local slices that alias the line table
+	nextEp int
+	bools  map[types.Object]bool
+	ints   map[types.Object]int64
+	breaks int
+	sinks  []string
+	advs   int  // cursor advanced by the length of the decoration
+	inner  int  // loops over the decoration text that record line starts inside it
+	done   bool // returned
+	cont   bool // continue in the decoration loop
+	ret    *int64
 	// classification helpers: return value wanted
 	retWanted, retSet bool
 }
 
 func (s *lsState) clone() *lsState {
-	n := &lsState{fresh: s.fresh, cur: s.cur, mark: s.mark, cend: s.cend, atEnd: s.atEnd, unkStart: s.unkStart, offs: map[types.Object]lsPos{}, nextEp: s.nextEp, poss: map[types.Object]lsPos{}, alias: map[types.Object]bool{}, bools: map[types.Object]bool{}, ints: map[types.Object]int64{}, breaks: s.breaks, done: s.done, cont: s.cont, advs: s.advs, inner: s.inner}
+	n := &lsState{fresh: s.fresh, cur: s.cur, mark: s.mark, cend: s.cend, atEnd: s.atEnd, unkStart: s.unkStart, offs: map[types.Object]lsPos{}, filled: map[types.Object]bool{}, nextEp: s.nextEp, poss: map[types.Object]lsPos{}, alias: map[types.Object]bool{}, bools: map[types.Object]bool{}, ints: map[types.Object]int64{}, breaks: s.breaks, done: s.done, cont: s.cont, advs: s.advs, inner: s.inner}
 	for k, v := range s.poss {
 		n.poss[k] = v
 	}
 	for k, v := range s.offs {
 		n.offs[k] = v
+	}
+	for k, v := range s.filled {
+		n.filled[k] = v
 	}
 	for k, v := range s.alias {
 		n.alias[k] = v
@@ -120,7 +126,7 @@ func (s *lsState) clone() *lsState {
 }
 
 func newLsState(fresh bool) *lsState {
-	s := &lsState{bools: map[types.Object]bool{}, ints: map[types.Object]int64{}, poss: map[types.Object]lsPos{}, offs: map[types.Object]lsPos{}, alias: map[types.Object]bool{}}
+	s := &lsState{bools: map[types.Object]bool{}, ints: map[types.Object]int64{}, poss: map[types.Object]lsPos{}, offs: map[types.Object]lsPos{}, filled: map[types.Object]bool{}, alias: map[types.Object]bool{}}
 	s.setFresh(fresh)
 	// on a fresh line nothing ends at the cursor; otherwise the node restored last may end there
 	s.cend = lsPos{-3, 0}
@@ -179,6 +185,9 @@ func (s *lsState) key() string {
 	}
 	for k, v := range s.poss {
 		parts = append(parts, fmt.Sprintf("%s@%d=%v", k.Name(), k.Pos(), v))
+	}
+	for k, v := range s.filled {
+		parts = append(parts, fmt.Sprintf("%s@%d filled=%v", k.Name(), k.Pos(), v))
 	}
 	sort.Strings(parts)
 	return fmt.Sprintf("fresh=%v at-content-end=%v %s", s.fresh, s.cend == s.cur, strings.Join(parts, " "))
@@ -443,7 +452,7 @@ func (v *lsEval) evalBool(s *lsState, x ast.Expr) (bool, bool) {
 				}
 			}
 		}
-		if fn != nil && fn.Name() == "hasCommentField" {
+		if fn != nil && load.CanonName(fn) == "hasCommentField" {
 			return v.env.hasField, true
 		}
 		// a predicate over the node (Bad* types) declared in the same package
@@ -486,6 +495,10 @@ func (v *lsEval) evalBool(s *lsState, x ast.Expr) (bool, bool) {
 				}
 				return false, false
 			}
+			// emptiness of a tracked local collection: len(x) == 0, x == nil
+			if f, ok := v.filledOf(s, b.X, b.Y); ok {
+				return f == neg, true
+			}
 			// d == "\n"
 			for _, p := range [][2]ast.Expr{{b.X, b.Y}, {b.Y, b.X}} {
 				if v.isD(p[0]) {
@@ -514,6 +527,12 @@ func (v *lsEval) evalBool(s *lsState, x ast.Expr) (bool, bool) {
 			}
 			fallthrough
 		case token.LSS, token.GTR, token.LEQ, token.GEQ:
+			// len(c) > 0 / 0 < len(c) for a tracked local collection
+			if zero := func(x ast.Expr) bool { bl, ok := ast.Unparen(x).(*ast.BasicLit); return ok && bl.Value == "0" }; (b.Op == token.GTR && zero(b.Y)) || (b.Op == token.LSS && zero(b.X)) {
+				if f, ok := v.filledOf(s, b.X, b.Y); ok {
+					return f, true
+				}
+			}
 			l, ok1 := v.evalInt(s, b.X)
 			r, ok2 := v.evalInt(s, b.Y)
 			if ok1 && ok2 {
@@ -658,6 +677,30 @@ func (v *lsEval) noteStart(s *lsState, r ast.Expr) {
 	}
 }
 
+// filledOf: x and y are `len(c)` and 0 (or `c` and nil), in either order, for a local collection
+// whose emptiness is tracked: is it filled?
+func (v *lsEval) filledOf(s *lsState, x, y ast.Expr) (bool, bool) {
+	for _, p := range [][2]ast.Expr{{x, y}, {y, x}} {
+		a, b := ast.Unparen(p[0]), ast.Unparen(p[1])
+		var coll ast.Expr
+		if call, ok := a.(*ast.CallExpr); ok && len(call.Args) == 1 {
+			if id, ok := call.Fun.(*ast.Ident); ok && id.Name == "len" {
+				if bl, ok := b.(*ast.BasicLit); ok && bl.Value == "0" {
+					coll = call.Args[0]
+				}
+			}
+		} else if id, ok := b.(*ast.Ident); ok && id.Name == "nil" {
+			coll = a
+		}
+		if id, ok := ast.Unparen(coll).(*ast.Ident); coll != nil && ok {
+			if f, tracked := s.filled[v.info.Uses[id]]; tracked {
+				return f, true
+			}
+		}
+	}
+	return false, false
+}
+
 // posDelta: a constant advance (token.Pos(k), k, token.Pos(len("lit"))).
 func (v *lsEval) posDelta(s *lsState, x ast.Expr) (int, bool) {
 	x = ast.Unparen(x)
@@ -713,7 +756,7 @@ func (v *lsEval) touches(n ast.Node, s *lsState) bool {
 				}
 			}
 		case *ast.CallExpr:
-			if fn := calleeFunc(v.info, x); fn != nil && fn.Name() == "addCommentField" {
+			if v.e.isFieldSinkCall(v.info, x) {
 				hit = true
 			}
 		case *ast.ReturnStmt:
@@ -789,6 +832,9 @@ func (v *lsEval) stmt(s *lsState, st ast.Stmt) {
 				o := v.info.Defs[nm]
 				if o == nil {
 					continue
+				}
+				if _, isSlice := o.Type().Underlying().(*types.Slice); isSlice && i >= len(vs.Values) {
+					s.filled[o] = false // var x []T
 				}
 				switch b := o.Type().Underlying().(type) {
 				case *types.Basic:
@@ -962,6 +1008,23 @@ func (v *lsEval) stmt(s *lsState, st ast.Stmt) {
 					continue
 				}
 				if _, isSlice := o.Type().Underlying().(*types.Slice); isSlice {
+					// emptiness of a local collection: x = append(x, e…) fills it, x = nil and
+					// x = x[:0] empty it, anything else is unknown
+					delete(s.filled, o)
+					switch rv := ast.Unparen(r).(type) {
+					case *ast.Ident:
+						if rv.Name == "nil" {
+							s.filled[o] = false
+						}
+					case *ast.CallExpr:
+						if fid, ok := rv.Fun.(*ast.Ident); ok && fid.Name == "append" && len(rv.Args) >= 2 && !rv.Ellipsis.IsValid() {
+							s.filled[o] = true
+						}
+					case *ast.SliceExpr:
+						if rv.High != nil && types.ExprString(rv.High) == "0" {
+							s.filled[o] = false
+						}
+					}
 					// lines := r.lines  /  lines = append(lines, …)
 					if v.isField(r, "lines") {
 						s.alias[o] = true
@@ -1034,7 +1097,7 @@ func (v *lsEval) stmt(s *lsState, st ast.Stmt) {
 		if !ok {
 			return
 		}
-		if fn := calleeFunc(v.info, call); fn != nil && fn.Name() == "addCommentField" {
+		if v.e.isFieldSinkCall(v.info, call) {
 			s.sinks = append(s.sinks, "field")
 			return
 		}
@@ -1400,6 +1463,10 @@ func (e *Env) lineStateApplyDecorations() {
 						}
 						if ev.undec != "" {
 							e.Run.Undecided("R-SPACE", key, pos, "after the loop: "+ev.undec)
+							return
+						}
+						if len(ex.sinks) != 0 {
+							e.Run.Violation("R-SPACE", "applyDecorations: every comment reaches its sink while its own decoration is rendered", pos, fmt.Sprintf("%s; decorations %s: a comment is handed to sink %q only after the loop over the list — comments of later decorations are in the file's comment list before it, and go/printer, which reads that list in order, prints them first", envName, trace(cur), strings.Join(ex.sinks, "+")))
 							return
 						}
 						wantFresh := cur.ref.fresh && !pkgComment
